@@ -101,10 +101,73 @@ func c01Shape(g *genRun, w string) string {
 	if hasRawSingleLineSegment(g.p.Body, g.p) {
 		return "c01_single_line_segment_copied_raw"
 	}
-	if strings.Contains(w, "\n") {
+	if explainedBySpaceSequence(g, w) {
+		return "c01_space_sequence_outside_class"
+	}
+	if strings.Contains(w, "\n") && explainedByDotall(g, w) {
 		return "c01_newline_lost_dotall_group_stripped"
 	}
 	return "c01_other"
+}
+
+// The shape of known finding C01-dotall-stripped, as narrowly as it can be observed: the witness
+// contains a newline and the difference disappears, in all four contexts, as soon as the dots of
+// the output are allowed to match a newline again
+func explainedByDotall(g *genRun, w string) bool {
+	for _, ctx := range [][2]bool{{true, true}, {true, false}, {false, true}, {false, false}} {
+		a, e1 := matchExact("(?s)"+g.first.Stdout, w, ctx[0], ctx[1])
+		b, e2 := matchExact(g.den.txt, w, ctx[0], ctx[1])
+		if e1 != nil || e2 != nil || a != b {
+			return false
+		}
+	}
+	return true
+}
+
+// The shape of known finding C01-space-sequence-outside-class: includeVerticalTabInSpaceClass
+// rewrites the text \t\n\f\r<space> to \s\x0b also where it is not inside a bracket expression
+// (the five characters as a literal sequence).  Observed as narrowly as possible: the output
+// contains \s\x0b outside a bracket expression, and the difference disappears, in all four
+// contexts, when exactly those occurrences are turned back into the five characters.
+func undoSpaceClassOutsideBrackets(out string) string {
+	var sb strings.Builder
+	inClass := false
+	for i := 0; i < len(out); {
+		c := out[i]
+		switch {
+		case c == '\\' && !inClass && strings.HasPrefix(out[i:], `\s\x0b`):
+			sb.WriteString(`\t\n\f\r `)
+			i += len(`\s\x0b`)
+			continue
+		case c == '\\' && i+1 < len(out):
+			sb.WriteByte(c)
+			sb.WriteByte(out[i+1])
+			i += 2
+			continue
+		case c == '[' && !inClass:
+			inClass = true
+		case c == ']' && inClass:
+			inClass = false
+		}
+		sb.WriteByte(c)
+		i++
+	}
+	return sb.String()
+}
+
+func explainedBySpaceSequence(g *genRun, w string) bool {
+	undone := undoSpaceClassOutsideBrackets(g.first.Stdout)
+	if undone == g.first.Stdout {
+		return false
+	}
+	for _, ctx := range [][2]bool{{true, true}, {true, false}, {false, true}, {false, false}} {
+		a, e1 := matchExact(undone, w, ctx[0], ctx[1])
+		b, e2 := matchExact(g.den.txt, w, ctx[0], ctx[1])
+		if e1 != nil || e2 != nil || a != b {
+			return false
+		}
+	}
+	return true
 }
 
 // The shape of known finding C01-single-line-raw, as narrowly as the code's behaviour allows:
